@@ -12,6 +12,9 @@ ex = Exec(ctx)
 ex.verify_unit(con)
 for o in ctx.obligations:
   if pat in o.name:
+    _s = z3.Solver(); _s.add(*o.pc); _s.add(z3.Not(o.goal))
+    if _s.check() != z3.sat:
+      continue
     print('GOAL', str(z3.simplify(o.goal))[:3000])
     for c in o.pc:
       print('PC  ', str(z3.simplify(c))[:400].replace('\n', ' '))
